@@ -461,6 +461,23 @@ func (e *Engine) discharge(tmo int) {
 		}
 		wg2.Wait()
 	}
+	// last resort: the few that are still without an answer (a machine loaded to several times its cores stretches a
+	// 10-second proof beyond a minute) get one more attempt each, alone, with ten times the limit. More than a handful
+	// left at this point is not load, and is reported as it is.
+	var last []int
+	for _, i := range again {
+		o := e.obs[i]
+		if o.Result != "unsat" && o.Result != "sat" && o.Result != "error" {
+			last = append(last, i)
+		}
+	}
+	if len(last) > 0 && len(last) <= 6 {
+		for _, i := range last {
+			o := e.obs[i]
+			r := runSolvers(o.Script, tmo*10, dir, fmt.Sprintf("ob%05d_last", i))
+			o.Result, o.Solver, o.Ms, o.Output = r.first, r.solver, o.Ms+r.ms, r.out
+		}
+	}
 }
 
 // conjuncts flattens a (possibly named) conjunction into at most max parts.
